@@ -213,9 +213,15 @@ class BruteSolver(IncrementalTrackingSolver):
         if ty.is_bool_type():
             vals = [False, True]
         elif ty.is_bv_type():
-            if ty.width > MAX_BV_WIDTH:
-                raise PysmtValueError("brute: bit-vector width %d > %d" % (ty.width, MAX_BV_WIDTH))
-            vals = list(range(1 << ty.width))
+            if domain is not None and not isinstance(domain, tuple):
+                # explicit candidate values (any width): the caller asserts membership itself
+                vals = [int(v) for v in domain]
+                if any(v < 0 or v >= (1 << ty.width) for v in vals):
+                    raise PysmtValueError("brute: candidate out of range for width %d" % ty.width)
+            else:
+                if ty.width > MAX_BV_WIDTH:
+                    raise PysmtValueError("brute: bit-vector width %d > %d" % (ty.width, MAX_BV_WIDTH))
+                vals = list(range(1 << ty.width))
         elif ty.is_int_type():
             if domain is None:
                 raise PysmtValueError("brute: Int symbol %s needs a declared range" % symbol)
